@@ -46,6 +46,7 @@ pub struct Violation {
 pub const MAX_DISTINCT_PER_SHARD: usize = 2_000_000;
 pub const MAX_SAMPLES_PER_GEN: usize = 2;
 pub const MAX_VIOLATIONS_PER_SIG: u64 = 2;
+pub const MAX_SIGNATURES: usize = 256;
 
 #[derive(Serialize, Deserialize, Default, Debug)]
 pub struct Rec {
@@ -77,7 +78,12 @@ impl Rec {
             self.nontrivial_dropped += 1;
         }
     }
-    pub fn add_violation(&mut self, v: Violation) {
+    pub fn add_violation(&mut self, mut v: Violation) {
+        // bound the number of distinct signatures one process carries: beyond the cap they fold into one overflow signature
+        if self.violation_counts.len() >= MAX_SIGNATURES && !self.violation_counts.contains_key(&v.signature) {
+            let gen = v.signature.split('|').next().unwrap_or("?").to_string();
+            v.signature = format!("{}|overflow|more-than-{}-distinct-signatures", gen, MAX_SIGNATURES);
+        }
         let c = self.violation_counts.entry(v.signature.clone()).or_insert(0);
         *c += 1;
         if *c <= MAX_VIOLATIONS_PER_SIG {
@@ -103,13 +109,14 @@ impl Rec {
                 self.samples.push((g, s));
             }
         }
+        let mut have: std::collections::HashMap<String, u64> = std::collections::HashMap::new();
+        for x in &self.violations {
+            *have.entry(x.signature.clone()).or_insert(0) += 1;
+        }
         for v in other.violations {
-            let have = self
-                .violations
-                .iter()
-                .filter(|x| x.signature == v.signature)
-                .count() as u64;
-            if have < MAX_VIOLATIONS_PER_SIG {
+            let h = have.entry(v.signature.clone()).or_insert(0);
+            if *h < MAX_VIOLATIONS_PER_SIG && self.violations.len() < MAX_SIGNATURES * 4 {
+                *h += 1;
                 self.violations.push(v);
             }
         }
